@@ -448,11 +448,11 @@ fn run_cfg_inner<T: Item + ItemA + 'static>(l: &str, lines: &[String], pos: &mut
     if via_sync && stages == 3 {
         let (p, w, c) = mutringbuf::HeapSplit::split_mut(buf);
         let (p, w, c) = (AsyncProdIter::from_sync(p), AsyncWorkIter::from_sync(w), AsyncConsIter::from_sync(c));
-        run_session::<T, true>(Sess { p: Slot::Att(Box::new(p)), w: Slot::Att(Box::new(w)), c: Slot::Att(Box::new(c)), held: [None, None, None], freed: false, len, task: 0, wakers: Wakers::new() }, lines, pos, out);
+        start3::<T, _>(p, w, c, len, lines, pos, out);
     } else if via_sync {
         let (p, c) = mutringbuf::HeapSplit::split(buf);
         let (p, c) = (AsyncProdIter::from_sync(p), AsyncConsIter::from_sync(c));
-        run_session::<T, false>(Sess { p: Slot::Att(Box::new(p)), w: Slot::Gone, c: Slot::Att(Box::new(c)), held: [None, None, None], freed: false, len, task: 0, wakers: Wakers::new() }, lines, pos, out);
+        start2::<T, _>(p, c, len, lines, pos, out);
     } else if stages == 3 {
         let (p, w, c) = buf.split_mut_async();
         start3::<T, _>(p, w, c, len, lines, pos, out);
